@@ -11,6 +11,7 @@ EXPLANATION = (
     "|change| first), and every exceeded edge ends in a diverging process::exit with no return reachable; "
     "StepThreshold::is_within bounds forward with `<` and backward with `> -v`; in_startup is cleared only in "
     "update_clock after steering."
+    ' The accumulated-step counter persists: accumulated_steps has one writer and self.timedata is never overwritten as a whole.'
 )
 NOT_DECIDED = ["floating point/fixed point arithmetic of NtpDuration::from_seconds", "accumulation over long histories as numbers"]
 
